@@ -118,7 +118,7 @@ def run(tier):
         "exhaustive": False,
         "histories": stats["histories"], "statements": stats["statements"], "refused": stats["refused"],
     }
-    vlib.write_evidence(PROP, tier, "trace_validation", cov, time.time() - t0, n_viol, assumptions=[
+    vlib.write_evidence(PROP, tier, "exploration", cov, time.time() - t0, n_viol, assumptions=[
         "statements are issued one at a time: the nexus lock (writers exclusive, readers shared) is what makes a "
         "committing statement invisible in part to concurrent readers; that lock is not exercised here",
         "authorization refusals are exercised by C19, not here",
